@@ -12,7 +12,14 @@ def run(ctx):
         for r in vlib.read_ndjson(p):
             base.append(dict(id=r["id"], entry="Parse", kind=r["kind"], frame=r["frame"]))
     if q:
-        base = [b for i, b in enumerate(base) if i % 3 == ctx.seed % 3]
+        # every kind stays represented: keep the first frame of each (family, kind) and every third of the others
+        seen, keep = set(), []
+        for i, b in enumerate(base):
+            k = (b["id"].split("-")[0], b["kind"])
+            if k not in seen or i % 3 == ctx.seed % 3:
+                keep.append(b)
+            seen.add(k)
+        base = keep
     sp, nb, nm = totality.mutate(ctx, base, "of", depth2=not q, maxlen=300 if q else 1200)
     tr, recs = totality.run(ctx, sp, "of")
     ctx.extra.update(base_frames=nb, mutants=nm, distinct_nontrivial=nm)
